@@ -12,7 +12,7 @@ from ..seed import digest
 
 ID = "C17"
 ENVS = ["absent"]
-RUNS = {"quick": 48000, "thorough": 480000}
+RUNS = {"quick": 96000, "thorough": 960000}
 RULE = ("case = (base dataset with insertion orders, 4-8 variants: equal-by-construction rebuilds and near-misses) in a "
         "cell with its own hash seed; distinct = distinct case digest; non-trivial = at least one pair with a "
         "multi-element bucket or several rankings was compared in both directions")
